@@ -37,6 +37,28 @@ class Facts:
             self.absorbed = set()
         self._stable = None
 
+    def fields_by_role(self, adt):
+        """field names of a crate-local struct by what they are rather than what they are called:
+        {'param': [fields whose type is a type parameter], <adt id>: [fields of that ADT type], 'usize': [...], 'bool': [...]}"""
+        out = collections.defaultdict(list)
+        a = self.adts.get(adt)
+        if not a or not a['variants']:
+            return out
+        crate = adt.split('::')[0]
+        for fd in a['variants'][0]['fields']:
+            ty = self.types.get((crate, fd['ty']), {})
+            if ty.get('k') == 'param':
+                out['param'].append(fd['n'])
+            elif ty.get('adt'):
+                out[ty['adt']].append(fd['n'])
+            elif ty.get('k') in ('uint', 'int'):
+                out[ty.get('s', 'int')].append(fd['n'])
+            elif ty.get('k') == 'bool':
+                out['bool'].append(fd['n'])
+            else:
+                out[ty.get('k', '?')].append(fd['n'])
+        return out
+
     def stable_names(self):
         """id / q -> position independent display name: impl blocks by their self type, closures without their ordinal,
         so that adding an impl block or a closure elsewhere does not rename every later function"""
